@@ -112,6 +112,25 @@ fn neighbours(s: &str, rng: &mut Rng, all: bool) -> Vec<String> {
     out.push(format!(" {}", s));
     out.push(format!("{}\0", s));
     out.push(String::new());
+    // non-ASCII lookalikes whose code points agree with the spelling in their low byte / low 7 bits
+    for i in 0..chars.len() {
+        for add in [0x100u32, 0x200, 0x1000, 0x10000, 0x80] {
+            if let Some(c) = char::from_u32(chars[i] as u32 + add) {
+                let mut v = chars.clone();
+                v[i] = c;
+                out.push(v.iter().collect());
+            }
+        }
+    }
+    out.push(chars.iter().filter_map(|c| char::from_u32(*c as u32 + 0x100)).collect());
+    // the spelling followed / preceded by filler whose length is a multiple of 256 (length
+    // arithmetic in a narrow integer), and the spelling repeated
+    for n in [256usize, 512, 65536] {
+        out.push(format!("{}{}", s, "x".repeat(n)));
+        out.push(format!("{}{}", "x".repeat(n), s));
+        out.push(format!("{}{}", s, "\u{0}".repeat(n)));
+    }
+    out.push(format!("{}{}", s, s));
     for w in REAL_WORLD {
         out.push(w.to_string());
     }
